@@ -239,6 +239,9 @@ func RunRelayHistory(w RelayWorld, h RelayHistory) {
 // so a file found there was written during the current run.
 func RelayObsPath() string {
 	base := "/verif/.build/conform"
+	if d := os.Getenv("VERIF_BUILD_DIR"); d != "" {
+		base = d // bin/vcheck: the build directory of this run (differs per tier)
+	}
 	if out := os.Getenv("VERIF_OUT"); out != "" {
 		base = filepath.Dir(filepath.Dir(out))
 	}
